@@ -185,15 +185,19 @@ impl Vm {
                 }
                 // TODO: compute gas_spent is not inferrable above
                 Some(ProgramControlFlow::ComputeResult((pc, gas, halt))) => {
-                    gas_spent = gas_spent.checked_add(gas).ok_or(ExecError(
-                        self.pc,
-                        OutOfGasError {
-                            spent: gas_spent,
-                            op_gas: gas,
-                            limit: gas_limit.total,
-                        }
-                        .into(),
-                    ))?;
+                    // The gas spent by the compute programs counts towards the total limit.
+                    gas_spent = gas_spent
+                        .checked_add(gas)
+                        .filter(|&spent| spent <= gas_limit.total)
+                        .ok_or(ExecError(
+                            self.pc,
+                            OutOfGasError {
+                                spent: gas_spent,
+                                op_gas: gas,
+                                limit: gas_limit.total,
+                            }
+                            .into(),
+                        ))?;
                     self.pc = pc;
                     self.halt |= halt;
                     if self.halt {
